@@ -178,8 +178,10 @@ BSizeEmpty(b) ==
     /\ Log(Rec("size", b, <<>>, 0, <<>>, <<>>, 0), <<"size", 0>>)
 
 \* Replay into the database (t = 0) or into another batch (t = its id)
+\* The SOURCE batch may already have been written: a batch keeps its operations until Reset, and trie.Database.Commit relies on
+\* it (batch.Write(); batch.Replay(uncacher); batch.Reset()).
 BReplay(b, t) ==
-    /\ Usable(b) /\ t # b
+    /\ t # b
     /\ IF t = 0
        THEN /\ db' = FoldLeft(DbApply, db, bops[b])
             /\ UNCHANGED <<bops, bpend>>
